@@ -3,7 +3,7 @@
 // sqlscript.go — a scripted database/sql driver ("scripted"): every query text is logged and answered by a
 // Go function, so that reader services (which want real *sql.Rows) can be driven without ClickHouse. A
 // Script also gives the reader's model.ISqlxDB and model.IDBRegistry views of itself.
-package fakes
+package fakes17
 
 import (
 	"context"
